@@ -23,7 +23,7 @@ fn is_first_class_number(raw: i32) -> bool { matches!(raw, 1 | 2 | 3 | 9 | 10 | 
 #[kani::ensures(|r: &Signal| if is_first_class_number(raw) { posix(*r) == Some(raw) } else { *r == Signal::Custom(raw) })]
 fn w_from_i32(raw: i32) -> Signal { Signal::from(raw) }
 
-// OBL:C19.signal_to_nix.number_preserved
+// OBL:C19+C06.signal_to_nix.number_preserved
 #[kani::ensures(|r: &Option<i32>| match posix(s) { Some(n) => *r == Some(n), None => match s { Signal::Custom(n) => r.is_none() || *r == Some(n), _ => false } })]
 fn w_to_nix_number(s: Signal) -> Option<i32> { s.to_nix().map(|n| n as i32) }
 
